@@ -236,8 +236,9 @@ class WorkerPool:
             results_batch = self._worker_comms.get_results(block=True)
             for job_id, success, result in results_batch:
 
-                # Poison pill, stop the listener
-                if isinstance(result, str) and result == POISON_PILL:
+                # Poison pill, stop the listener. A poison pill doesn't belong to a job. The result of a task can be any
+                # value, including a string that equals the poison pill
+                if job_id is None and isinstance(result, str) and result == POISON_PILL:
                     return
 
                 try:
